@@ -145,12 +145,13 @@ def run_instance(inst, tier):
     from gcmpy.network.edge_list import LightWeightEdgeList
     N, L = inst["N"], inst["L"]
     for rows in inst["rows"]:
-        for tops in itertools.product("AB", repeat=L):
+        name_sets = ["AB"] + ([["", "B"]] if L <= 2 else [])   # "" is a legitimate (falsy) topology name
+        for tops in [t for ns in name_sets for t in itertools.product(ns, repeat=L)]:
             for idp in (0, 1):
                 ids = [i if idp == 0 else 10 + i // 2 for i in range(L)]
                 jds = [[0, 0] for _ in range(N)]
                 for (a, b), t in zip(rows, tops):
-                    k = 0 if t == "A" else 1
+                    k = 1 if t == "B" else 0
                     jds[a][k] += 1
                     jds[b][k] += 1
                 jds = [tuple(r) for r in jds]
